@@ -30,9 +30,9 @@ PROPS = {
     'C08': {
         'e3_always': ['atom_from_stream'],
         'e3': ['atom_from_stream'],
-        'units': ['ser', 'serout', 'serloop', 'deser'],
-        'decided': 'DESERIALISER AS A WHOLE (unit deser): sexp_from_stream returns Ok only with the tree the consensus deserialiser returns for the bytes (finish: clvmr node_from_stream transcribed, a stack of pending read / cons operations where an error ends the run) and Err whenever that fails -- although its operation loop drops the errors OpReadSexp / OpCons report: after a dropped error the value stack can never again hold a value at the end (balance <= 0, from an invariant on the shape of the operation stack); OpCons::invoke and OpReadSexp::invoke under contract; ROUND TRIP (lemma round_trip): the consensus deserialiser reads back ser(t) as t whatever follows it, ser being the postcondition of sexp_to_stream; serialiser: every chunk SExpToBytesIterator::next emits is the next piece of the consensus serialisation ser(tree) of its work stack (0xff for a pair then its children, enc_atom for an atom), with the length-prefix encoder (atom_size_blob) equal to the consensus prefix table; sexp_to_stream appends exactly ser(tree) to a stream positioned at its end and terminates (work-stack weight decreases), over Stream::write (bytes land at the cursor, the rest of the buffer is kept, the cursor moves past them) and Stream::re_allocate (capacity only); lemma dec_enc_atom: the decoder contract reads back exactly what the encoder contract writes, for every length class; atom decoder (atom_from_stream, Stream::read, int_from_bytes, get_u32) returns exactly what the consensus decoder returns and rejects what it rejects',
-        'not_covered': ['to_sexp_type behind SimpleCreateCLVMObject (ASSUMED contract: a node is returned as it is, a tuple of two nodes becomes their pair or the allocator is full); the trait-object operation stack is verified in defunctionalised form (rule R53: the two implementors as an enum, dispatch by match on the extracted bodies)', 'atoms of 2^34 bytes or more (sexp_to_stream silently stops there; excluded by precondition)', 'that the allocator reference is handed back unchanged by sexp_to_stream (shown per step for the iterator only)', 'byte-equality with clvmr rests on a transcribed spec'],
+        'units': ['ser', 'serout', 'serloop', 'deser', 'tosexp'],
+        'decided': 'DESERIALISER AS A WHOLE (unit deser): sexp_from_stream returns Ok only with the tree the consensus deserialiser returns for the bytes (finish: clvmr node_from_stream transcribed, a stack of pending read / cons operations where an error ends the run) and Err whenever that fails -- although its operation loop drops the errors OpReadSexp / OpCons report: after a dropped error the value stack can never again hold a value at the end (balance <= 0, from an invariant on the shape of the operation stack); OpCons::invoke and OpReadSexp::invoke under contract; the conversion machine behind every pair it builds (unit tosexp): to_sexp_type and SimpleCreateCLVMObject::invoke return a node denoting ct_tree(value) for every value made of nodes, tuples, byte strings, strings and numbers, index nothing out of range and terminate (simulation of an abstract machine, lemma convert); ROUND TRIP (lemma round_trip): the consensus deserialiser reads back ser(t) as t whatever follows it, ser being the postcondition of sexp_to_stream; serialiser: every chunk SExpToBytesIterator::next emits is the next piece of the consensus serialisation ser(tree) of its work stack (0xff for a pair then its children, enc_atom for an atom), with the length-prefix encoder (atom_size_blob) equal to the consensus prefix table; sexp_to_stream appends exactly ser(tree) to a stream positioned at its end and terminates (work-stack weight decreases), over Stream::write (bytes land at the cursor, the rest of the buffer is kept, the cursor moves past them) and Stream::re_allocate (capacity only); lemma dec_enc_atom: the decoder contract reads back exactly what the encoder contract writes, for every length class; atom decoder (atom_from_stream, Stream::read, int_from_bytes, get_u32) returns exactly what the consensus decoder returns and rejects what it rejects',
+        'not_covered': ['the link between the contract of SimpleCreateCLVMObject::invoke proved in unit tosexp and its two-shape restatement used in unit deser (the units carry different stand-in payload types); to_sexp_type for ListOf (never constructed in the crate; its `v.len() - 1` underflows on an empty list) and G1Affine values (arms cut, R38); the trait-object operation stack is verified in defunctionalised form (rule R53: the two implementors as an enum, dispatch by match on the extracted bodies)', 'atoms of 2^34 bytes or more (sexp_to_stream silently stops there; excluded by precondition)', 'that the allocator reference is handed back unchanged by sexp_to_stream (shown per step for the iterator only)', 'byte-equality with clvmr rests on a transcribed spec'],
     },
     'C06': {
         'e3_always': ['choose_path'],
@@ -99,7 +99,7 @@ PROPS = {
         'not_covered': ['that the two printers escape at least the quote and the backslash (classic write_ir / modern escape_quote): bounded stand-in only (E3 round trip on all 1-byte, 2304 2-byte and special 3-byte atoms, 3 positions, 3 versions); the Kani per-atom harness did not finish (HashMap + String in CBMC, 20 min) and was dropped', 'decimal and hex text conversion (assumed inverse pairs)', 'list / dot layout', 'modern printer and reader: bounded stand-in only', 'CLI path'],
     },
     'C14': {
-        'units': ['safety', 'srcloc', 'ser', 'printer', 'depwalk', 'macroext', 'readerstep', 'irreader', 'deser'],
+        'units': ['safety', 'srcloc', 'ser', 'printer', 'depwalk', 'macroext', 'readerstep', 'irreader', 'deser', 'tosexp'],
         'e3_always': ['no_panic', 'include_files', 'macro_ext', 'token_mutations'],
         'e3': ['no_panic', 'include_files', 'macro_ext', 'token_mutations'],
         'decided': 'absence of panics, arithmetic overflow, out-of-bounds indexing and non-termination (under the stated preconditions) in the front-end leaves under contract: Stream::read / set_seek / get_seek, IRReader::backup, Bytes accessors and concat, atom_from_stream, atom_size_blob, int_from_bytes, get_u32, Srcloc arithmetic incl. len, is_hex / is_space / is_eol, has_oversized_sign_extension, ir_for_atom; THE BINARY DESERIALISER AS A WHOLE (unit deser: sexp_from_stream with both operations terminates -- 3 x remaining bytes + pending operations decreases -- and indexes nothing out of range, for every byte string that fits the address space); THE CLASSIC READER AS A WHOLE (unit irreader, from read_ir down): for every text shorter than 2^63 bytes, consume_object / consume_cons_body / consume_atom / consume_whitespace / consume_quoted / enlist_ir / IRReader::{new,read,backup,read_expr} / Stream::{new,set_seek} index only what is there, read only inside the text, move the cursor only forward and terminate (every list element consumes at least one byte; mutual recursion by remaining length) -- consume_whitespace stops exactly at the first byte outside blanks and ; comments (skip_ws), consume_atom takes exactly the bytes up to the next parenthesis / blank / end; the modern reader\'s per-byte transition function parse_sexp_step as a whole (every state x every byte: no index outside a list, no underflow, the recursion on the nested state terminates) and enlist; Preprocessor::process_include / recurse_dependencies index no parsed form that is not there (empty include file: finding F14, fixed); the defmac extension functions (string? number? symbol? string->symbol symbol->string string-append string-length substring) fetch every argument through required_arg (Ok exactly when the call supplies it) and substring only slices inside the string (finding F17, fixed)',
